@@ -72,6 +72,11 @@ func (h *captureHandler) WithGroup(string) slog.Handler      { return h }
 
 type customPanic struct{ A int }
 
+// recSink swallows what the default log handler prints
+type recSink struct{}
+
+func (*recSink) Write(p []byte) (int, error) { return len(p), nil }
+
 var recSensitive = map[string]bool{"authorization": true, "proxy-authorization": true, "cookie": true, "set-cookie": true,
 	"x-csrf-token": true, "x-vault-token": true}
 
@@ -183,7 +188,7 @@ func runRecovery(fields []string) string {
 	if fields[1] == "T" {
 		return runRecoveryTxn(fields)
 	}
-	res := runRecoveryP(fields, false)
+	res := runRecoveryP(fields, 0)
 	// containment does not depend on the log handler: with a handler that discards everything (Enabled = false) the
 	// same request ends the same way - same return / re-panic, same response, same follow-ups (only the record is gone)
 	jOf := func(s string) string {
@@ -201,14 +206,24 @@ func runRecovery(fields []string) string {
 		return ""
 	}
 	if !strings.Contains(res, "\tO=") {
-		if j1, j2 := jOf(res), jOf(runRecoveryP(fields, true)); j1 != j2 {
+		if j1, j2 := jOf(res), jOf(runRecoveryP(fields, 1)); j1 != j2 {
 			res += "\tO=with a log handler that is disabled for every level the request ends differently: " + j2 + " instead of " + j1
+		}
+	}
+	// nor on how the middleware was constructed or on the state of the request context: fox.Recovery() (the default log
+	// handler, its output captured through a hook) on a request whose context is already cancelled ends the same way
+	if !strings.Contains(res, "\tO=") {
+		if j1, j2 := jOf(res), jOf(runRecoveryP(fields, 2)); j1 != j2 {
+			res += "\tO=with fox.Recovery() and a cancelled request context the request ends differently: " + j2 + " instead of " + j1
 		}
 	}
 	return res
 }
 
-func runRecoveryP(fields []string, logDisabled bool) string {
+// logMode 0: CustomRecoveryWithLogHandler(capturing handler); 1: the same with a handler disabled for every level;
+// 2: fox.Recovery() and a request whose context has been cancelled
+func runRecoveryP(fields []string, logMode int) string {
+	logDisabled := logMode == 1
 	val := recMakeValue(fields[2])
 	progress, scope := fields[3], fields[4]
 	type hv struct{ name, value string }
@@ -221,6 +236,11 @@ func runRecoveryP(fields []string, logDisabled bool) string {
 	}
 	lh := &captureHandler{disabled: logDisabled}
 	recov := fox.CustomRecoveryWithLogHandler(lh, fox.DefaultHandleRecovery)
+	if logMode == 2 {
+		var sink recSink
+		defer fox.VerifSwapDefaultLogOutput(&sink, &sink)()
+		recov = fox.Recovery()
+	}
 	eventsAtPanic := -1
 	var rw *recWriter
 	doPanic := func(c fox.Context) {
@@ -332,6 +352,11 @@ func runRecoveryP(fields []string, logDisabled bool) string {
 	req := newReq(method, "example.com", path)
 	for _, h := range hdrs {
 		req.Header[h.name] = []string{h.value}
+	}
+	if logMode == 2 {
+		ctx, cancel := context.WithCancel(req.Context())
+		cancel()
+		req = req.WithContext(ctx)
 	}
 	if len(hdrs) > 0 && len(hdrs[0].name)%2 == 0 && scope != "routehost" {
 		// a Host with a lone carriage return (a hand-built request; the net/http server would refuse it): the header
